@@ -168,8 +168,10 @@ def main():
                 exp = None
                 if o["part"] == "tree":
                     exp = next(t["exp"] for t in tl if t["tree"] == o["tree"])
+                # (the error text of a rejection depends on the sanitiser's map order: not stored, replay shows it)
+                fx = {"kind": f["kind"]} if f["kind"] in ("reject-wellformed", "unstable") else f
                 add(desc, {"kind": "text", "text": o["text"], "class": o["class"], "exp": exp, "reps": reps_tree},
-                    {"text": o["text"], "fact": f, "accepts": o["accepts"], "rejects": o["rejects"], "canons": (o.get("canons") or [])[:3]})
+                    {"text": o["text"], "fact": fx, "accepts": o["accepts"], "rejects": o["rejects"], "canons": (o.get("canons") or [])[:3]})
         run.cov["failing_facts"] = nfacts
 
         # negative controls: a wrong class code and a wrong predicted selection must be flagged
